@@ -9,6 +9,7 @@ import collections
 import concurrent.futures
 import glob
 import json
+import multiprocessing
 import os
 import random
 import re
@@ -293,7 +294,8 @@ def replay(work, binary, family, paths, job, consts, preds, what, seed, stats, v
     if nshards == 1:
         results = [shard_worker(specs[0])]
     else:
-        with concurrent.futures.ProcessPoolExecutor(nshards) as ex:
+        # spawn, not fork: sub-checks run in threads, and forking a multi-threaded process may copy a held lock
+        with concurrent.futures.ProcessPoolExecutor(nshards, mp_context=multiprocessing.get_context("spawn")) as ex:
             results = list(ex.map(shard_worker, specs))
     labels = []
     agg = collections.Counter()
@@ -442,13 +444,14 @@ def mw_run(work, binary, verdict, stats, tier, seed):
     writers, aborters = ["w1", "w2"], ["a1", "a2"]
     consts = mw_consts(writers, aborters, 1)
     # 1. exhaustive model check with the state graph dumped
-    cfg = write_cfg(work, "MC_mw22.cfg", ["SPECIFICATION Spec", "CONSTANTS"] + consts + MW_INV)
-    r = model_check(work, "MuxWrite", cfg, stats, "MuxWrite 2 writers x 2 aborters, arm failure", 600, dump=work.path("mw22.dot"))
+    d = Dir(work.path("mc-mw22"))
+    cfg = write_cfg(d, "MC_mw22.cfg", ["SPECIFICATION Spec", "CONSTANTS"] + consts + MW_INV)
+    r = model_check(d, "MuxWrite", cfg, stats, "MuxWrite 2 writers x 2 aborters, arm failure", 600, dump=d.path("mw22.dot"))
     must_hold(r, "MuxWrite 2x2")
-    g = Graph(work.path("mw22.dot"))
+    g = Graph(d.path("mw22.dot"))
     # 2. the model's counterexample to CountExact becomes a directed schedule for the real mux
-    cfg = write_cfg(work, "MC_mw22_count.cfg", ["SPECIFICATION Spec", "CONSTANTS"] + consts + ["INVARIANT CountExact"])
-    rc = v.require(v.tlc(work.dir, "MuxWrite", cfg=cfg, timeout=300), "MuxWrite CountExact")
+    cfg = write_cfg(d, "MC_mw22_count.cfg", ["SPECIFICATION Spec", "CONSTANTS"] + consts + ["INVARIANT CountExact"])
+    rc = v.require(v.tlc(d.dir, "MuxWrite", cfg=cfg, timeout=300), "MuxWrite CountExact")
     cex = cex_path(rc.out) if rc.invariants_violated else []
     stats["model_counterexamples"] = [{"spec": "MuxWrite", "invariant": "CountExact", "length": len(cex), "schedule": cex}] if cex else []
     # 3. edge cover of the complete graph, replayed through the gates
@@ -459,13 +462,13 @@ def mw_run(work, binary, verdict, stats, tier, seed):
     replay(work, binary, "mw", paths, job, consts, MW_PREDS, "MuxWrite 2x2", seed, stats, verdict, graph=g, cover_key="MuxWrite_2x2")
     if tier == "thorough":
         # 3 writers x 2 aborters exhaustively; writers that write twice, edge-covered on the real mux
-        cfg = write_cfg(work, "MC_mw32.cfg", ["SPECIFICATION Spec", "CONSTANTS"] + mw_consts(["w1", "w2", "w3"], aborters, 1) + MW_INV)
-        must_hold(model_check(work, "MuxWrite", cfg, stats, "MuxWrite 3 writers x 2 aborters, arm failure", 1500), "MuxWrite 3x2")
+        cfg = write_cfg(d, "MC_mw32.cfg", ["SPECIFICATION Spec", "CONSTANTS"] + mw_consts(["w1", "w2", "w3"], aborters, 1) + MW_INV)
+        must_hold(model_check(d, "MuxWrite", cfg, stats, "MuxWrite 3 writers x 2 aborters, arm failure", 1500), "MuxWrite 3x2")
         c2 = mw_consts(writers, ["a1"], 2)
-        cfg = write_cfg(work, "MC_mw21r2.cfg", ["SPECIFICATION Spec", "CONSTANTS"] + c2 + MW_INV)
-        must_hold(model_check(work, "MuxWrite", cfg, stats, "MuxWrite 2 writers writing twice x 1 aborter", 900, dump=work.path("mw21r2.dot")),
+        cfg = write_cfg(d, "MC_mw21r2.cfg", ["SPECIFICATION Spec", "CONSTANTS"] + c2 + MW_INV)
+        must_hold(model_check(d, "MuxWrite", cfg, stats, "MuxWrite 2 writers writing twice x 1 aborter", 900, dump=d.path("mw21r2.dot")),
                   "MuxWrite 2x1 rounds 2")
-        g2 = Graph(work.path("mw21r2.dot"))
+        g2 = Graph(d.path("mw21r2.dot"))
         paths, _ = g2.plan(seed, noplan=("Probe",))
         job = {"writers": writers, "aborters": ["a1"], "rounds": 2, "drain": 80}
         replay(work, binary, "mw", paths, job, c2, MW_PREDS, "MuxWrite 2x1 two writes each", seed, stats, verdict, graph=g2,
@@ -511,10 +514,11 @@ def sc_describe(lines, viols, sp):
 def sc_config(work, binary, verdict, stats, seed, kind, nh, nk, nr, grams, writes, replay_it=True, timeout=900):
     key = "SharedConn_%s_h%dk%dr%dg%dw%d" % (kind, nh, nk, nr, grams, writes)
     consts = ["NHandles = %d" % nh, "NClosers = %d" % nk, "NReaders = %d" % nr, "MaxGrams = %d" % grams, "MaxWrites = %d" % writes]
-    cfg = write_cfg(work, "MC_%s.cfg" % key, ["SPECIFICATION Spec", "CONSTANTS"] + consts +
+    d = Dir(work.path("mc-" + key))
+    cfg = write_cfg(d, "MC_%s.cfg" % key, ["SPECIFICATION Spec", "CONSTANTS"] + consts +
                     ["INVARIANTS UnderlyingClosedOnce OwnIOFails SiblingsUsable", "CHECK_DEADLOCK FALSE"])
-    dot = work.path(key + ".dot") if replay_it else None
-    r = model_check(work, "SharedConn", cfg, stats, key, timeout, dump=dot)
+    dot = d.path(key + ".dot") if replay_it else None
+    r = model_check(d, "SharedConn", cfg, stats, key, timeout, dump=dot)
     must_hold(r, key)
     if not replay_it:
         return
@@ -669,7 +673,7 @@ def mr_describe(lines, viols, sp):
         feat = mr_features(pred, lines, idx, start, details.get((pred, idx + 1), ()))
         cls = (pred, feat.get("shape"), feat.get("ev"))
         count[cls] += 1
-        if count[cls] > 25:      # enough cases of one shape from this shard
+        if count[cls] > 5:       # enough cases of one shape from this shard
             continue
         feat["step"] = idx - start
         out.append({"features": feat, "replay": {
@@ -696,11 +700,12 @@ def mr_config(work, binary, verdict, stats, seed, key, c, timeout=900):
     """Exhaustive TLC run of one MuxRoute configuration, then its complete graph edge-covered on the real mux."""
     seq = c["mode"] == "seq"
     consts = mr_consts(c)
-    cfg = write_cfg(work, "MC_%s.cfg" % key, ["SPECIFICATION %s" % ("SeqSpec" if seq else "Spec"), "CONSTANTS"] + consts +
+    d = Dir(work.path("mc-" + key))    # every TLC run in a directory of its own (parallel runs must not share a metadir)
+    cfg = write_cfg(d, "MC_%s.cfg" % key, ["SPECIFICATION %s" % ("SeqSpec" if seq else "Spec"), "CONSTANTS"] + consts +
                     (["CONSTRAINT SeqBound"] if seq else []) + ["INVARIANTS TypeOK AtMostOne PerConnFifo ClosedEmpty", "CHECK_DEADLOCK FALSE"])
-    r = model_check(work, "MuxRoute", cfg, stats, key, timeout, dump=work.path(key + ".dot"))
+    r = model_check(d, "MuxRoute", cfg, stats, key, timeout, dump=d.path(key + ".dot"))
     must_hold(r, key)
-    g = Graph(work.path(key + ".dot"))
+    g = Graph(d.path(key + ".dot"))
     paths, _ = g.plan(seed)
     replay(work, binary, "mr", paths, mr_job(c), consts, MR_SEQ_PREDS if seq else MR_CONC_PREDS, key, seed, stats, verdict,
            graph=g, cover_key=key, nshards=c.get("shards", 4))
@@ -710,9 +715,10 @@ def mr_cex(work, binary, verdict, stats, seed, key, c, invariant="GoneAfterRemov
     """TLC's counterexample to a C12 invariant of the model becomes a directed schedule for the real mux."""
     seq = c["mode"] == "seq"
     consts = mr_consts(c)
-    cfg = write_cfg(work, "MC_%s.cfg" % key, ["SPECIFICATION %s" % ("SeqSpec" if seq else "Spec"), "CONSTANTS"] + consts +
+    d = Dir(work.path("mc-" + key))
+    cfg = write_cfg(d, "MC_%s.cfg" % key, ["SPECIFICATION %s" % ("SeqSpec" if seq else "Spec"), "CONSTANTS"] + consts +
                     (["CONSTRAINT SeqBound"] if seq else []) + ["INVARIANT " + invariant, "CHECK_DEADLOCK FALSE"])
-    r = v.require(v.tlc(work.dir, "MuxRoute", cfg=cfg, timeout=600), key)
+    r = v.require(v.tlc(d.dir, "MuxRoute", cfg=cfg, timeout=600), key)
     cex = cex_path(r.out) if r.invariants_violated else []
     with LOCK:
         stats.setdefault("model_counterexamples", []).append({"spec": "MuxRoute", "cfg": key, "invariant": invariant, "found": bool(cex),
@@ -735,11 +741,13 @@ def mr_run(work, binary, verdict, stats, tier, seed):
               "writers": ["w1", "w2"], "maxconns": 1, "grams": 2, "writes": 2, "removes": 1, "closes": 1, "stale": False, "setupfirst": True}
     cex_a = dict(MR_BASE, ops=5)
     cex_b = dict(conc_a, grams=1)
+    cex_a2 = dict(conc_a, grams=1, stale=True, ufrags=["u1"], maxconns=1)     # the stale-handle form, through the gates
     jobs = [lambda: mr_config(work, binary, verdict, stats, seed, "MuxRoute_seq", seqc, 1500),
             lambda: mr_config(work, binary, verdict, stats, seed, "MuxRoute_conc_2conns", conc_a, 1500),
             lambda: mr_config(work, binary, verdict, stats, seed, "MuxRoute_conc_1conn", conc_b, 1500),
             lambda: mr_cex(work, binary, verdict, stats, seed, "MuxRoute_cex_stale_handle", cex_a),
-            lambda: mr_cex(work, binary, verdict, stats, seed, "MuxRoute_cex_removal_race", cex_b)]
+            lambda: mr_cex(work, binary, verdict, stats, seed, "MuxRoute_cex_removal_race", cex_b),
+            lambda: mr_cex(work, binary, verdict, stats, seed, "MuxRoute_cex_stale_handle_gated", cex_a2)]
     parallel(jobs, 3)
 
 
@@ -793,4 +801,72 @@ def c12(tier, seed):
 
 
 PLANS = {"C12": c12, "C13": c13}
-MANIFEST = {}
+UDPMUX_NOTE = ("Trusted base: TLC; the Go drivers of harness/udpmux (gate scheduler over the verifhook yield points, fake shared socket, "
+               "tagged read-only exports of verif_export_udpmux.go); testing/synctest's quiescence detection. The verdict is a TLA+ predicate "
+               "of the monitor specification evaluated by TLC on what the real code in /repo's working tree did; conformance of the same "
+               "traces to the model (trace validation) and the achieved edge coverage of the model's state graph are reported as evidence.")
+UDPMUX_TECH = ("TLA+ specs model-checked exhaustively with TLC; an edge cover of the complete TLC state graph and TLC's counterexamples "
+               "replayed on the real code step by step through verifhook gates (build tag verif); recorded traces validated against the "
+               "spec and judged by a TLA+ monitor in TLC")
+MANIFEST = {
+    "C12": ("model_checking", "5.C12",
+            "MuxRoute.tla (ufrag tables per IP family, addressMap, per-connection address lists, WriteTo as contains/append/register with "
+            "takeover, dispatch as read/canonicalise/address lookup/USERNAME-ufrag lookup/enqueue, RemoveConnByUfrag as its two lock "
+            "sections, connection and mux Close; IPv4, IPv4-mapped and IPv6 source forms) model-checked exhaustively: all sequential "
+            "histories of up to 6 operations over 2 ufrags x 2 families x 3 source forms x {STUN u1, STUN u2, STUN unknown ufrag, non-STUN}, "
+            "and all interleavings of 2 writers + dispatcher + remover (+ Close) at yield-point granularity. Every edge of these graphs is "
+            "replayed on a real UDPMuxDefault over a fake socket (sequential ones directly, concurrent ones and TLC's counterexamples "
+            "through gates); the monitor judges AtMostOne, RightOne (sequentially consistent reference), Identical, PerConnFifo, "
+            "NoForeignUfrag, GoneAfterRemove on every recorded step.", UDPMUX_NOTE, UDPMUX_TECH),
+    "C13": ("model_checking", "5.C13",
+            "MuxWrite.tla (write-abort state machine, every Load/CAS/Store/SetWriteDeadline/socket write its own action, arm-failure fault) "
+            "model-checked exhaustively for 2 writers x 2 aborters (quick) and 3 x 2 plus two writes per writer (thorough) incl. liveness; "
+            "every edge of the 2x2 graph is replayed through gates on the real UDPMuxDefault over a fake shared socket and judged by "
+            "Quiescent=>Clean, LaterWritesSucceed (probe write), NoStuckWriter (bounded gated fair drain), CountExact, NoSpuriousTimeout. "
+            "SharedConn.tla (reference-counted handles: refs, per-handle context, closeOnce, underlying close count; GetHandle/Read/Write/"
+            "Close incl. repeated and concurrent Close) model-checked and edge-covered on real sharedPacketConn handles handed out by "
+            "UDPMuxDefault.GetConn and TCPMuxDefault.GetConnByUfrag, judged by UnderlyingClosedOnce, OwnIOFails, SiblingsUsable.",
+            UDPMUX_NOTE, UDPMUX_TECH),
+}
+
+
+def replay_file(path):
+    """Re-run one recorded offending path against the current tree and re-judge it: python3 lib/plan_udpmux.py replay <path>."""
+    rp = json.load(open(path))
+    prop = rp["property"]
+    fam = {"TestMuxWrite": "mw", "TestSharedConn": "sc", "TestMuxRoute": "mr"}[rp["driver"]]
+    verdict = v.Verdict(prop, "quick", 0)
+    stats = new_stats()
+    job = {k: x for k, x in rp["job"].items() if k not in ("paths", "out", "stats")}
+    with v.Work("replay-" + prop) as work:
+        work.copy_specs(FAMILY)
+        binary = v.build_harness(work, pkg=FAMILY)
+        if fam == "mw":
+            consts, preds = mw_consts(job["writers"], job["aborters"], job.get("rounds", 1)), MW_PREDS
+        elif fam == "sc":
+            consts = ["NHandles = %d" % len(job["handles"]), "NClosers = %d" % len(job["closers"]), "NReaders = %d" % len(job["readers"]),
+                      "MaxGrams = 4", "MaxWrites = 4"]
+            preds = SC_PREDS
+        else:
+            seq = job["mode"] == "seq"
+            c = {"mode": job["mode"], "ufrags": job["ufrags"], "fams": job["fams"], "srcs": ["s1", "m1", "s2", "m2", "s6", "t6"],
+                 "kinds": ["data", "ux"] + job["ufrags"], "writers": job["writers"], "maxconns": job["maxconns"], "grams": 8, "writes": 8,
+                 "removes": 8, "closes": 8, "stale": True, "muxclose": True, "ops": 99}
+            c["srcs"] = [x for x in c["srcs"] if canon(x) in job["keys"]]
+            consts, preds = mr_consts(c), (MR_SEQ_PREDS if seq else MR_CONC_PREDS)
+        replay(work, binary, fam, [rp["path"]], job, consts, preds, "replay", 0, stats, verdict, nshards=1)
+    for feat, p in verdict.violations:
+        print("VIOLATION property=%s replay=%s" % (prop, p))
+    for kid, (what, cnt) in verdict.known_hits.items():
+        print("KNOWN-FINDING: property=%s %s (%s)" % (prop, what, kid))
+    return 1 if verdict.violations else 0
+
+
+if __name__ == "__main__":
+    if len(sys.argv) == 3 and sys.argv[1] == "replay":
+        try:
+            sys.exit(replay_file(sys.argv[2]))
+        except v.Inconclusive as e:
+            sys.stderr.write("INCONCLUSIVE: %s\n" % e)
+            sys.exit(2)
+    sys.exit("usage: plan_udpmux.py replay <path>")
